@@ -4,4 +4,7 @@ CONSTANTS
   DH = 300
   DV = 500
   DL = 0
+  X0 = 0
+  Y0 = 0
+  Z0 = 0
 CHECK_DEADLOCK FALSE
